@@ -3,7 +3,10 @@ from . import classlaws, spec_c05
 
 
 def build(repo, tier, seed):
-    classes = [c for c in classlaws.READY if c in spec_c05.SPECS]
+    classes = [c for c in classlaws.READY + ["Dataset"] if c in spec_c05.SPECS]
     b = classlaws.bundle(repo, tier, seed, ("C05",), classes=classes, crosscheck=True)
+    b["assumptions"].append("Dataset: evaluates to callback(implementation), both evaluated under mix(mix(default options, caller's options), pre-set options), proved compositionally: the temporaries "
+                            "of Dataset._composed are used through the C05 specifications proved for WithOptions, Cached, Logged, Computation and Apply (spec_c05.tower_contracts), "
+                            "effects that do not fail (region F15) and a sound cache backend (B-sound)")
     b["assumptions"].append("spec terms are written from the property statement (contracts/spec_c05.py); Python operators and user callables are uninterpreted")
     return b
